@@ -414,3 +414,8 @@ Proof.
   destruct (T_sound M _ r 0 x dx (inv_bound _ _ Hm) Hin) as (_ & n & Ha & ->).
   symmetry. cbn [Nat.add]. unfold chain_depth. eapply chain_depth_anc; eauto. apply is_root_up. exact Hr.
 Qed.
+
+(* a class that is written is one whose comments the writer accepts *)
+Lemma write_class_ok c d ls : write_class c d = Ok ls -> write_class_lines c d = Ok ls /\ class_docs_writable c = true.
+Proof. unfold write_class. destruct (class_docs_writable c); [auto|discriminate]. Qed.
+
